@@ -437,6 +437,14 @@ def scenario(rec, rng, cid):
         for t in (a, b):
             t.apply_preprocessing(list(pipe))
             t.fit_model(model_key=spec["model"])
+
+        def fresh():
+            # a curve that never saw the first call (the twin b shares the
+            # cache logic under observation)
+            t = twins()[0]
+            t.apply_preprocessing(list(pipe))
+            t.fit_model(model_key=spec["model"])
+            return t
         allc = IndentationRater.get_feature_names(which_type="continuous")
         names = [allc[i] for i in rng.permutation(len(allc))[:5]] \
             + ["feat_bin_size"]
@@ -451,6 +459,7 @@ def scenario(rec, rng, cid):
             ra2 = g.call("rate_quality", a.rate_quality, regressor=reg,
                          names=names)
             rb2 = b.rate_quality(regressor=reg, names=list(n1))
+            rc2 = fresh().rate_quality(regressor=reg, names=list(n1))
             case["edit"] = {"before": n0, "after": n1}
         else:
             X, y = IndentationRater.load_training_set(names=names)
@@ -466,6 +475,9 @@ def scenario(rec, rng, cid):
                          names=list(names), training_set=ts)
             rb2 = b.rate_quality(regressor=reg, names=list(names),
                                  training_set=ts1)
+            rc2 = fresh().rate_quality(regressor=reg, names=list(names),
+                                       training_set=(ts1[0].copy(),
+                                                     ts1[1].copy()))
             case["edit"] = "training responses reversed in place"
         rec.event("twin states compared", 2)
         rec.check(ra == rb, "aliasing/%s/after-first-call" % sc,
@@ -474,6 +486,13 @@ def scenario(rec, rng, cid):
                   "after the in-place edit the twin re-using the object is "
                   "rated %r, the twin given fresh copies %r (first call %r)"
                   % (ra2, rb2, ra), case)
+        rec.event("twin states compared")
+        rec.check(ra2 == rc2 and rb2 == rc2,
+                  "change-not-noticed/%s" % sc,
+                  "after the edit the curve rated before gives %r (re-used "
+                  "object) / %r (fresh copies), a curve rated for the first "
+                  "time with the edited values gives %r" % (ra2, rb2, rc2),
+                  case)
         rec.evaluated(dg=(sc, reg, names, spec))
     elif sc == "force_array":
         from nanite import poc
